@@ -26,6 +26,7 @@ func TestSim(t *testing.T) {
 		os.Exit(2)
 	}
 	installBubble(t)
+	sim.Instrumented = os.Getenv("VERIF_INSTRUMENTED") == "1"
 	// per-run watchdog: a run that hangs ends the process with exit 3; the orchestrator attributes it to the run
 	// announced last (a verdict only for properties that speak about termination, otherwise exit 2)
 	limit := 240
